@@ -22,6 +22,7 @@ type Assignment struct {
 	Model   map[string]string `json:"model"`
 	Chooses map[string]int    `json:"chooses"`
 	Faults  []string          `json:"faults,omitempty"`
+	Crashes []string          `json:"crashes,omitempty"`
 	Tag     string            `json:"tag,omitempty"`
 }
 
@@ -35,6 +36,8 @@ type state struct {
 	wg        sync.WaitGroup
 	mu        sync.Mutex
 	faultCnt  map[string]int
+	crashCnt  map[string]int
+	crashCh   chan struct{}
 }
 
 var cur *state
@@ -256,7 +259,7 @@ func RunReplay(t *testing.T, harnesses map[string]func()) {
 			fmt.Printf("VSYM-BEGIN %d\nVSYM-ERROR unknown harness %s\nVSYM-END %d\n", k, a.Harness, k)
 			continue
 		}
-		cur = &state{a: a, nameCnt: map[string]int{}, chooseCnt: map[string]int{}, dirs: map[string]string{}, faultCnt: map[string]int{}}
+		cur = &state{a: a, nameCnt: map[string]int{}, chooseCnt: map[string]int{}, dirs: map[string]string{}, faultCnt: map[string]int{}, crashCnt: map[string]int{}}
 		fmt.Printf("VSYM-BEGIN %d\n", k)
 		func() {
 			defer func() {
@@ -325,3 +328,83 @@ func ParseDecimal(s string) int64 {
 }
 
 func Settle() { time.Sleep(400 * time.Millisecond) }
+
+// ---- crash simulation (native): the crashing goroutine blocks for ever and
+// UntilCrash abandons the "process"; the harness then closes the old store
+// handle and restarts on the same directory. ----
+
+func UntilCrash(f func()) bool {
+	cur.mu.Lock()
+	cur.crashCh = make(chan struct{}, 1)
+	ch := cur.crashCh
+	cur.mu.Unlock()
+	done := make(chan interface{}, 1)
+	go func() {
+		defer func() { done <- recover() }()
+		f()
+	}()
+	select {
+	case p := <-done:
+		if p != nil {
+			panic(p)
+		}
+		return false
+	case <-ch:
+		return true
+	}
+}
+
+func crashSelected(site string) bool {
+	cur.mu.Lock()
+	n := cur.crashCnt[site]
+	cur.crashCnt[site] = n + 1
+	cur.mu.Unlock()
+	key := site
+	if n > 0 {
+		key = fmt.Sprintf("%s#%d", site, n)
+	}
+	for _, c := range cur.a.Crashes {
+		if c == key {
+			return true
+		}
+	}
+	return false
+}
+
+// CrashNow ends the simulated process from the calling goroutine.
+func CrashNow() {
+	cur.mu.Lock()
+	ch := cur.crashCh
+	cur.mu.Unlock()
+	if ch != nil {
+		select {
+		case ch <- struct{}{}:
+		default:
+		}
+	}
+	select {}
+}
+
+func CrashPoint(site string) {
+	if crashSelected(site) {
+		CrashNow()
+	}
+}
+
+// CrashSelected is CrashPoint without dying (for wrappers that must do something first).
+func CrashSelected(site string) bool { return crashSelected(site) }
+
+// CrashSubset reports whether batch entry k had reached the disk when the process died.
+func CrashSubset(k int) bool {
+	for _, c := range cur.a.Crashes {
+		if c == fmt.Sprintf("subset:%d", k) {
+			return true
+		}
+	}
+	return false
+}
+
+func SetCrashes(budget int)     {}
+func ModelAllOpensSynced() bool { return true }
+
+func DeferGoroutines(on bool) {}
